@@ -25,3 +25,8 @@ open UtilModel UtilModel.Conc
 #print axioms Conc.C18_obs_core
 #print axioms UtilModel.monitor_of_simulation
 #print axioms UtilModel.C18_accepted
+#print axioms UtilModel.not_complete_conc
+#print axioms UtilModel.complete_conc_allCands
+#print axioms UtilModel.complete_conc_reduced
+#print axioms UtilModel.Conc.reduced_covers_model
+#print axioms UtilModel.reject_sound_conc
